@@ -194,7 +194,13 @@ def writer_paths(P, fn):
             m = re.findall(r'len\(([^()]*(?:\([^()]*\))?[^()]*)\)', str(v))
             return m[0] if m else None
         for i, e in enumerate(items):
-            if e[0] == 'w' and e[1] not in ('bytes',):
+            if e[0] == 'w' and e[1] == 'fill':
+                # the same as a loop writing one byte `count` times
+                from .ranges import canon as _canon_f
+                from .families import describe as _describe_f
+                t_ = B.blocks[e[-1]]['t']
+                layout.append('rep[range:%s](u8)' % (_describe_f(B, _canon_f(B, t_['args'][2])) if len(t_['args']) > 2 else '?'))
+            elif e[0] == 'w' and e[1] not in ('bytes',):
                 nm = name_of_len(e[2]) if e[2] is not None else None
                 if nm:
                     lens[nm] = i
